@@ -249,6 +249,12 @@ def _sources(b, oa, sc):
                 continue
             n += 1
             if kind == 'call':
+                if call_matches(payload, 'Option::<T>::expect', 'Option::<T>::unwrap') and not fp:
+                    # the payload of an Option obtained by expect()/unwrap(): same as projecting `.0` out of it
+                    a0 = payload['args'][0]
+                    if 'l' in a0:
+                        visit(a0['l'], tuple(field_path(a0['p'])) + ('0',), bi)
+                        continue
                 if bi == oa.decision_bb and fp == ('0',):
                     out.append(('accepted-payload', frm))
                 elif is_trait_call(payload, 'State', 'score') and fp == ('0',) and bi not in oa.inner['body']:
